@@ -319,6 +319,34 @@ func init() {
 				return true
 			})
 		}
+		// the decoded challenge reaches a.Next unchanged: msg is assigned exactly twice in Auth (case 334: the decoder's
+		// result, case 235: the reply text) and is the first argument of a.Next
+		passUnchanged := false
+		if fn, ok := sp.funcs["Client.Auth"]; ok && fn.Body != nil {
+			var rhs []string
+			nextArg := ""
+			ast.Inspect(fn.Body, func(x ast.Node) bool {
+				switch t := x.(type) {
+				case *ast.AssignStmt:
+					for i, l := range t.Lhs {
+						if sp.src(l) == "msg" {
+							if len(t.Rhs) == len(t.Lhs) {
+								rhs = append(rhs, sp.src(t.Rhs[i]))
+							} else if len(t.Rhs) == 1 {
+								rhs = append(rhs, sp.src(t.Rhs[0]))
+							}
+						}
+					}
+				case *ast.CallExpr:
+					if sp.src(t.Fun) == "a.Next" && len(t.Args) == 2 {
+						nextArg = sp.src(t.Args[0])
+					}
+				}
+				return true
+			})
+			passUnchanged = nextArg == "msg" && len(rhs) == 2 && rhs[0] == "encoding.DecodeString(msg64)" && rhs[1] == "[]byte(msg64)"
+		}
+		emitBool("smtp_auth_challenge_passed_unchanged", passUnchanged, "Client.Auth: msg is assigned only by the decoder (case 334) and from the reply text (case 235) and handed to a.Next as it is")
 		if chal == 0 || succ == 0 || more == 0 {
 			untranslatable = append(untranslatable, "smtp_auth_codes")
 		}
